@@ -375,7 +375,8 @@ class Check:
         self.notes = []
         self.exhaustive = None
         self.rule = ""
-        self.work = os.path.join(BUILD, "work", prop)
+        # one scratch directory per (property, tier, replay) so that concurrent runs of different kinds do not collide
+        self.work = os.path.join(BUILD, "work", prop + ("" if tier == "quick" else "." + tier) + (".replay" if os.environ.get("VERIF_REPLAY") else ""))
         shutil.rmtree(self.work, ignore_errors=True)
         os.makedirs(self.work, exist_ok=True)
         self.replays = os.path.join(ROOT, "replays", prop)
